@@ -18,6 +18,8 @@ import (
 	"crypto/sha256"
 	"crypto/x509"
 	"crypto/x509/pkix"
+	"encoding/base64"
+	"encoding/json"
 	"encoding/pem"
 	"fmt"
 	"io"
@@ -40,6 +42,7 @@ import (
 	"github.com/sassoftware/relic/v8/lib/pkcs9"
 	"github.com/sassoftware/relic/v8/signers"
 
+	"verif/gen/ocigen"
 	"verif/mc"
 	"verif/relicx"
 	"verif/tsa"
@@ -215,6 +218,9 @@ type attachPath struct {
 	Flags   url.Values
 	Legacy  bool
 	Key     string // "" = rsaA
+	// Cosign: the output is an OCI artifact manifest (JSON) that relic cannot
+	// verify; the harness reads the signature and the RFC 3161 annotation itself.
+	Cosign bool
 }
 
 func (p attachPath) key() string {
@@ -234,6 +240,7 @@ var paths = []attachPath{
 	{Name: "appmanifest(rfc3161,ecdsa)", SigType: "appmanifest", Input: "WindowsFormsApplication1.exe.manifest", InName: "in.exe.manifest", Flags: url.Values{"rfc3161-timestamp": {"true"}}, Key: "p256A"},
 	{Name: "vsix(ecdsa)", SigType: "vsix", Input: "VSIXProject1.vsix", InName: "in.vsix", Key: "p256A"},
 	{Name: "ps(authenticode-oid,ecdsa)", SigType: "ps", Input: "hello.ps1", InName: "in.ps1", Key: "p256A"},
+	{Name: "cosign(annotation)", SigType: "cosign", InName: "image-manifest.json", Cosign: true},
 }
 
 func topRelicFrames(stack string) string {
@@ -341,7 +348,15 @@ func signPhase(p attachPath, nurls int, hang bool) {
 				srvMu.Unlock()
 				in := filepath.Join(dir, p.InName)
 				out := filepath.Join(dir, "out-"+p.InName)
-				orig := copyFile(filepath.Join(relicx.Packages, p.Input), in)
+				var orig []byte
+				if p.Cosign {
+					orig = ocigen.Build(ocigen.Spec{MediaType: ocigen.OCIManifest, Items: 1})
+					if err := os.WriteFile(in, orig, 0o644); err != nil {
+						panic(err)
+					}
+				} else {
+					orig = copyFile(filepath.Join(relicx.Packages, p.Input), in)
+				}
 				os.Remove(out)
 				flags := url.Values{}
 				for k, v := range p.Flags {
@@ -412,6 +427,22 @@ func signPhase(p attachPath, nurls int, hang bool) {
 						run.Violation(key, desc+": "+serr.Error(), replay)
 						return
 					}
+					if p.Cosign {
+						has, imprintOK, timeOK, cerr := cosignStamp(out, urlTime(want))
+						switch {
+						case cerr != nil:
+							run.Violation("ts-sign:output-unreadable:"+p.Name, fmt.Sprintf("%s: %v", desc, cerr), replay)
+						case !has:
+							run.Violation("ts-sign:timestamp-silently-omitted:"+p.Name, desc, replay)
+						case !imprintOK:
+							run.Violation("ts-sign:attached-token-does-not-cover-this-signature:"+p.Name, desc, replay)
+						case !timeOK:
+							run.Violation("ts-sign:token-of-wrong-authority-attached:"+p.Name, desc, replay)
+						default:
+							run.Outcome("sign:" + p.Name + ":stamped-by-url" + fmt.Sprint(want))
+						}
+						return
+					}
 					sigs, verr := relicx.Verify(out, relicx.TrustOpts())
 					if verr != nil || len(sigs) == 0 {
 						run.Violation("ts-sign:output-does-not-verify:"+p.Name, fmt.Sprintf("%s: %v", desc, verr), replay)
@@ -429,6 +460,16 @@ func signPhase(p attachPath, nurls int, hang bool) {
 					return
 				}
 				// no acceptable authority: signing must fail and leave no artifact
+				if serr == nil && p.Cosign {
+					has, _, _, _ := cosignStamp(out, time.Time{})
+					what := "an artifact without timestamp"
+					if has {
+						what = "an artifact carrying the unacceptable token"
+					}
+					last := seq[len(seq)-1]
+					run.Violation("ts-sign:succeeds-without-acceptable-timestamp:"+p.Name+":"+last[strings.Index(last, ":")+1:], desc+": signing succeeded with "+what, replay)
+					return
+				}
 				if serr == nil {
 					what := "an artifact without timestamp"
 					if sigs, verr := relicx.Verify(out, relicx.TrustOpts()); verr != nil {
@@ -479,6 +520,43 @@ func pemCerts(path string) []*x509.Certificate {
 		out = append(out, c)
 	}
 	return out
+}
+
+// cosignStamp reads relic's cosign output without any relic code: the raw
+// signature and the RFC 3161 token are base64 annotations of the first layer.
+// The token covers this signature iff SHA-256(signature) appears in it (the
+// messageImprint of its TSTInfo) and it is the expected authority's iff that
+// authority's attested time (GeneralizedTime) does.
+func cosignStamp(path string, at time.Time) (has, imprintOK, timeOK bool, err error) {
+	blob, err := os.ReadFile(path)
+	if err != nil {
+		return false, false, false, err
+	}
+	var m struct {
+		Layers []struct {
+			Annotations map[string]string `json:"annotations"`
+		} `json:"layers"`
+	}
+	if err := json.Unmarshal(blob, &m); err != nil || len(m.Layers) == 0 {
+		return false, false, false, fmt.Errorf("not a cosign artifact manifest: %v", err)
+	}
+	a := m.Layers[0].Annotations
+	sig, err := base64.StdEncoding.DecodeString(a["dev.cosignproject.cosign/signature"])
+	if err != nil || len(sig) == 0 {
+		return false, false, false, fmt.Errorf("no signature annotation")
+	}
+	ts, ok := a["dev.sigstore.cosign/rfc3161timestamp"]
+	if !ok {
+		return false, false, false, nil
+	}
+	tok, err := base64.StdEncoding.DecodeString(ts)
+	if err != nil {
+		return true, false, false, fmt.Errorf("timestamp annotation is not base64")
+	}
+	h := sha256.Sum256(sig)
+	imprintOK = bytes.Contains(tok, h[:])
+	timeOK = bytes.Contains(tok, []byte(at.UTC().Format("20060102150405Z")))
+	return true, imprintOK, timeOK, nil
 }
 
 func scratchDir() string {
@@ -1010,7 +1088,7 @@ func main() {
 	tasks := append(signTasks(false), signTasks(true)...)
 	tasks = append(tasks, cachePhase, constructionPhase, verifyPhase)
 	if run.Fork(len(tasks)) {
-		run.Rule("sign side: every sequence of authority behaviours (16 for RFC 3161, 9 for the legacy protocol) over 1-2 (thorough 3) configured URLs, explored as a choice tree that ends at the first acceptable answer, x 8 attach paths (5 with an RSA key, 3 with ECDSA P-256), through the real pipeline and HTTP client against a loopback authority; verify side: 3 leaf validity windows x {no token, valid token under either OID, token grafted from another signature} x 4 authorities x 7 attested times, all cases under one shared trust pool and judged twice (list forwards, then backwards). states = executions; distinct_nontrivial = sign sequences with >=2 requests + verify cases. Hanging authorities: every sequence over {valid, http-500, never answers} for 2 (thorough 3) URLs under a 1 s client timeout, on one RFC 3161 and the legacy path. Timestamp cache: a loopback memcached owned by the harness; 7 cache contents for this signature's key x store accepts / refuses new entries x 3 authority answers, through the real gomemcache client")
+		run.Rule("sign side: every sequence of authority behaviours (16 for RFC 3161, 9 for the legacy protocol) over 1-2 (thorough 3) configured URLs, explored as a choice tree that ends at the first acceptable answer, x 9 attach paths (5 with an RSA key, 3 with ECDSA P-256, cosign's annotation read by the harness itself), through the real pipeline and HTTP client against a loopback authority; verify side: 3 leaf validity windows x {no token, valid token under either OID, token grafted from another signature} x 4 authorities x 7 attested times, all cases under one shared trust pool and judged twice (list forwards, then backwards). states = executions; distinct_nontrivial = sign sequences with >=2 requests + verify cases. Hanging authorities: every sequence over {valid, http-500, never answers} for 2 (thorough 3) URLs under a 1 s client timeout, on one RFC 3161 and the legacy path. Timestamp cache: a loopback memcached owned by the harness; 7 cache contents for this signature's key x store accepts / refuses new entries x 3 authority answers, through the real gomemcache client")
 		run.Assume("acceptable = status granted / granted-with-mods, nonce echoed, imprint (algorithm and value) equal to the digest of this signature value, token signature valid under the embedded authority certificate")
 		run.Assume("the authority's tokens are built by verif/tsa (validated against `openssl ts -verify` at development time); a hanging authority holds the request open until the client's own timeout (1 s, the smallest configurable) closes it: the only real-time wait in this check; when a healthy authority misses that timeout too the sequence is reported as not judged, never as a violation")
 		run.Set("processes", len(tasks))
